@@ -55,25 +55,11 @@ type checkResult struct {
 }
 
 func selectForProperty(id string, obls []*Oblig) []*Oblig {
-	var out []*Oblig
-	for _, o := range obls {
-		switch o.Kind {
-		case "post", "inv-entry", "inv-pres", "lemma":
-			if len(o.Props) > 0 {
-				has := false
-				for _, p := range o.Props {
-					if p == id {
-						has = true
-					}
-				}
-				if !has {
-					continue
-				}
-			}
-		}
-		out = append(out, o)
-	}
-	return out
+	// Every clause of every function of the property's set is checked: a
+	// clause tagged for another property is still an assumption of this one
+	// at the call sites (modular reasoning), so leaving it out would let a
+	// change that breaks it go unnoticed here. Tags select lemmas only.
+	return obls
 }
 
 func cmdCheck(args []string) int {
